@@ -5,7 +5,7 @@
    both are proved to compute the same Spec function. *)
 From Strcase Require Import Base Utf8 Spec Impl Impl2 Impl3 Impl6 Impl7 Fold FoldFacts FoldTables FoldFacts121 Instances Totality.
 
-Theorem C07x_model_parity : forall native cutover maxBruteForce maxLen primeRK s t, wf s -> wf t ->
+Theorem C07x_model_parity : forall native cutover maxBruteForce maxLen primeRK nativeMax rtMaxLen, nativeMax <= rtMaxLen -> forall s t, wf s -> wf t ->
   Compare fold121 (lower_pkg Str) Str s t = Compare fold121 (lower_pkg Byt) Byt s t /\
   EqualFold fold121 (lower_pkg Str) Str s t = EqualFold fold121 (lower_pkg Byt) Byt s t /\
   HasPrefix fold121 (lower_pkg Str) Str s t = HasPrefix fold121 (lower_pkg Byt) Byt s t /\
@@ -14,13 +14,13 @@ Theorem C07x_model_parity : forall native cutover maxBruteForce maxLen primeRK s
   HasSuffix fold121 (lower_pkg Str) s t = HasSuffix fold121 (lower_pkg Byt) s t /\
   TrimSuffix fold121 (lower_pkg Str) s t = TrimSuffix fold121 (lower_pkg Byt) s t /\
   CutSuffix fold121 (lower_pkg Str) s t = CutSuffix fold121 (lower_pkg Byt) s t /\
-  Impl6.Index native cutover fold121 (lower_pkg Str) fold_map121 fold_map_excl121 upper_lower121 maxBruteForce maxLen primeRK Str s t =
-    Impl6.Index native cutover fold121 (lower_pkg Byt) fold_map121 fold_map_excl121 upper_lower121 maxBruteForce maxLen primeRK Byt s t /\
+  Impl6.Index native cutover fold121 (lower_pkg Str) fold_map121 fold_map_excl121 upper_lower121 maxBruteForce maxLen primeRK nativeMax rtMaxLen Str s t =
+    Impl6.Index native cutover fold121 (lower_pkg Byt) fold_map121 fold_map_excl121 upper_lower121 maxBruteForce maxLen primeRK nativeMax rtMaxLen Byt s t /\
   Impl7.LastIndex fold121 (lower_pkg Str) fold_map121 upper_lower121 primeRK Str s t =
     Impl7.LastIndex fold121 (lower_pkg Byt) fold_map121 upper_lower121 primeRK Byt s t /\
-  Count (Impl6.Index native cutover fold121 (lower_pkg Str) fold_map121 fold_map_excl121 upper_lower121 maxBruteForce maxLen primeRK Str) Str s t =
-    Count (Impl6.Index native cutover fold121 (lower_pkg Byt) fold_map121 fold_map_excl121 upper_lower121 maxBruteForce maxLen primeRK Byt) Byt s t /\
-  Cut (Impl6.Index native cutover fold121 (lower_pkg Str) fold_map121 fold_map_excl121 upper_lower121 maxBruteForce maxLen primeRK Str) Str s t =
-    Cut (Impl6.Index native cutover fold121 (lower_pkg Byt) fold_map121 fold_map_excl121 upper_lower121 maxBruteForce maxLen primeRK Byt) Byt s t.
+  Count (Impl6.Index native cutover fold121 (lower_pkg Str) fold_map121 fold_map_excl121 upper_lower121 maxBruteForce maxLen primeRK nativeMax rtMaxLen Str) Str s t =
+    Count (Impl6.Index native cutover fold121 (lower_pkg Byt) fold_map121 fold_map_excl121 upper_lower121 maxBruteForce maxLen primeRK nativeMax rtMaxLen Byt) Byt s t /\
+  Cut (Impl6.Index native cutover fold121 (lower_pkg Str) fold_map121 fold_map_excl121 upper_lower121 maxBruteForce maxLen primeRK nativeMax rtMaxLen Str) Str s t =
+    Cut (Impl6.Index native cutover fold121 (lower_pkg Byt) fold_map121 fold_map_excl121 upper_lower121 maxBruteForce maxLen primeRK nativeMax rtMaxLen Byt) Byt s t.
 Proof. exact parity_ss. Qed.
 Print Assumptions C07x_model_parity.
